@@ -212,6 +212,33 @@ ARRAY_MAKERS = {"np.array", "np.asarray", "np.insert", "np.append", "np.concaten
 LABEL_HELPERS = ["util.adjust_intervals", "util.adjust_events", "util.merge_labeled_intervals", "util.interpolate_intervals", "util.intervals_to_samples", "util.sort_labeled_intervals", "hierarchy._align_intervals", "util.index_labels"]
 
 
+def rule_loopcomplete(ctx):
+    """interpolate_intervals labels the sample slice of *every* interval: the labelling loop has no break / continue and
+    its store is unconditional (intervals may come in any order; only adjust/merge require time order)."""
+    import ast
+
+    R = "C13.LOOPCOMPLETE"
+    f = ctx.program.func("util.interpolate_intervals", R)
+    s = ctx.S.get(f.qual)
+    loops = [(lid, node, it) for lid, (node, it) in s.loops.items() if "labels" in tm.params_of(it)]
+    need(len(loops) == 1, R, "interpolate_intervals: labelling loop not found")
+    lid, node, it = loops[0]
+    jumps = [n for n in ast.walk(node) if isinstance(n, (ast.Break, ast.Continue, ast.Return))]
+    stores = [m for m in s.by_kind("mutate") if m.how == "setitem" and any(x[0] == "loop" and x[1] == lid for x in m.pc)]
+    cond = []
+    for m in stores:
+        after = False
+        for x in m.pc:
+            if x[0] == "loop" and x[1] == lid:
+                after = True
+            elif after and x[0] in ("if", "either"):
+                cond.append(x)
+    ok = not jumps and len(stores) == 1 and not cond
+    yield ob(R, f, "util.interpolate_intervals:every-interval", ok, "every (start, end, label) triple writes its slice" if ok else "the labelling loop %s: some intervals are not applied (wrong for intervals that are not in time order)" % ("leaves early (line %d)" % jumps[0].lineno if jumps else "stores conditionally"), node=node)
+    zipped = it.op == "call" and call_name(it) == "builtins.zip" and len(it.a[1]) == 3
+    yield ob(R, f, "util.interpolate_intervals:zip-starts-ends-labels", zipped, "the loop runs over zip(starts, ends, labels)")
+
+
 def rule_padspan(ctx):
     """adjust_intervals pads the gap between the requested bound and the *cropped, clipped* annotation: the test and
     the padded row use min/max of the array after cropping, so the result always starts at t_min and ends at t_max."""
@@ -278,6 +305,7 @@ def _strip_len(t):
 
 
 RULES = [
+    ("C13.LOOPCOMPLETE", 2, rule_loopcomplete),
     ("C13.PADSPAN", 4, rule_padspan),
     ("C13.LABELLIST", 7, rule_labellist),
     ("C13.CROPSTRICT", 7, rule_cropstrict),
